@@ -167,6 +167,7 @@ pub struct SimScenario {
     pub mc_runs: usize,
     pub sys: System,
     pub scripts: HashMap<String, Rc<RefCell<Script>>>,
+    pub rule_tokens: Vec<(String, Vec<String>)>,
     pub trace_seen: usize,
     pub dead: bool,
 }
@@ -178,6 +179,7 @@ impl SimScenario {
             mc_runs: 0,
             sys: System::new(seed),
             scripts: HashMap::new(),
+            rule_tokens: vec![],
             trace_seen: 0,
             dead: false,
         }
@@ -295,8 +297,23 @@ impl SimScenario {
                     .entry(ws[1].to_string())
                     .or_insert_with(|| Rc::new(RefCell::new(Script::default())))
                     .clone();
-                script.borrow_mut().record = ws.get(3) == Some(&"rec");
-                self.sys.add_process(ws[1], Box::new(ScriptProc::new(script)), ws[2]);
+                let rec = ws[3..].contains(&"rec");
+                script.borrow_mut().record = rec;
+                script.borrow_mut().canon = ws[3..].contains(&"canon");
+                if ws[3..].contains(&"py") || ws[3..].contains(&"pyd") {
+                    // the Python twin gets the rules known so far (py scenarios list the rules before the processes)
+                    let toks: Vec<Vec<String>> = self
+                        .rule_tokens
+                        .iter()
+                        .filter(|(q, _)| q == ws[1])
+                        .map(|(_, w)| w.clone())
+                        .collect();
+                    let class = if ws[3..].contains(&"py") { "ScriptProc" } else { "ScriptProcDefault" };
+                    let f = anysystem::python::PyProcessFactory::new("/verif/harness/py/vscript.py", class);
+                    self.sys.add_process(ws[1], Box::new(f.build((rules_json(&toks), rec), 1)), ws[2]);
+                } else {
+                    self.sys.add_process(ws[1], Box::new(ScriptProc::new(script)), ws[2]);
+                }
                 vec![self.obs("ok", false)]
             }
             "rule" => {
@@ -306,6 +323,8 @@ impl SimScenario {
                     .or_insert_with(|| Rc::new(RefCell::new(Script::default())))
                     .clone();
                 script.borrow_mut().rules.push(parse_rule(&ws[2..]));
+                self.rule_tokens
+                    .push((ws[1].to_string(), ws[2..].iter().map(|x| x.to_string()).collect()));
                 vec![]
             }
             "draws" => vec![],
